@@ -769,6 +769,11 @@ def int_reads_rule(ctx, rule: str, fq: str, keys: T.Iterable[str], var: str = "f
                 conv = True
                 break
             p = parents.get(id(p))
+        if not conv and isinstance(p, (ast.Assign, ast.AnnAssign)) and getattr(p, "value", None) is n:
+            # bound to a local first (`year_str = fvals.get('year_y')`): converted where the local is used
+            tg = p.targets[0] if isinstance(p, ast.Assign) and len(p.targets) == 1 else getattr(p, "target", None)
+            if isinstance(tg, ast.Name):
+                conv = any(isinstance(c, ast.Call) and unparse(c.func) == "int" and c.args and any(isinstance(x, ast.Name) and x.id == tg.id for x in ast.walk(c.args[0])) for c in ast.walk(fn.node))
         ctx.check(rule, conv, f"{fq}: group '{key}' is read through int()", f"{fq}: the numeric group '{key}' is stored as text",
                   f"`{unparse(n)}` is not wrapped in int(...): the field is later compared with / added to numbers (TypeError) or compared as text", loc=fn.loc(n), witness={"group": key})
     ctx.floor(rule, f"numeric group reads in {fq}", n_reads, 5)
